@@ -32,6 +32,8 @@ META = {
 
 
 def run(prog, report, tier):
+    if tier == 'thorough':
+        panels.order_type_table(prog, report)
     panels.check_sym(prog, report)
     quadalg.check_mirrors(prog, report)
     panels.check_integrate(prog, report)
